@@ -407,6 +407,8 @@ def _configure_node(var, data, nodemap, model):
                 continue  # prefer (a) over (a /) when concept is missing
             edges.insert(0, ('/', target, epis))
         else:
+            if push and _is_established(target, nodemap):
+                push = False  # target already has a node context
             if push:
                 nodemap[target] = (target, [])
                 target, _surprising = _configure_node(
@@ -418,6 +420,11 @@ def _configure_node(var, data, nodemap, model):
             edges.append((role, target, epis))
 
     return node, surprising
+
+
+def _is_established(var, nodemap):
+    node = nodemap.get(var)
+    return node is not None and node[0] == var
 
 
 def _find_next(data, nodemap):
